@@ -128,7 +128,10 @@ fn fidelity(args: &[String], verif: &Path, seed: u64) -> i32 {
             return 2;
         }
     };
-    let n: u64 = arg(args, "--n").map(|s| s.parse().unwrap()).unwrap_or(400);
+    let n: u64 = arg(args, "--n").map(|s| s.parse().unwrap()).unwrap_or(600);
+    // optional LD_PRELOAD shim that lets the real binary read a chosen wall clock
+    let shim: Option<PathBuf> = arg(args, "--clock-shim").map(PathBuf::from);
+    let mut compared_clock = 0u64;
     let root = verif.join("work").join(format!("fidelity-{}", std::process::id()));
     let _ = std::fs::remove_dir_all(&root);
     let mut compared = 0u64;
@@ -142,9 +145,10 @@ fn fidelity(args: &[String], verif: &Path, seed: u64) -> i32 {
         index += 1;
         let text = scn.doc.render();
         for (k, v) in scn.variants.iter().enumerate() {
-            if !matches!(v.time, c20::TimeSource::Explicit { .. }) {
+            let reads_clock = !matches!(v.time, c20::TimeSource::Explicit { .. });
+            if reads_clock && shim.is_none() {
                 skipped += 1;
-                continue; // the real clock cannot be set
+                continue; // the real clock cannot be set without the shim
             }
             let (mut fs, mut ex, out_path) = c20::build_exec(&scn, v, &text);
             ex.io = Default::default(); // fault-free
@@ -165,6 +169,14 @@ fn fidelity(args: &[String], verif: &Path, seed: u64) -> i32 {
             cmd.env_remove("TZ").env_remove("LANG").env_remove("LC_ALL").env_remove("LC_TIME").env_remove("RUST_BACKTRACE");
             for (k, v) in &ex.env {
                 cmd.env(k, v);
+            }
+            if let Some(sh) = &shim {
+                // both kinds of execution run under the shim: explicit-time runs see the decoy clock
+                cmd.env("LD_PRELOAD", sh);
+                cmd.env("VERIF_FAKE_CLOCK", format!("{}.{:09}", ex.clock.sec, ex.clock.nsec));
+            }
+            if reads_clock {
+                compared_clock += 1;
             }
             let stdin_bytes: Option<Vec<u8>> = match &ex.stdin {
                 StdinSpec::Pipe(s) => Some(s.clone().into_bytes()),
@@ -235,7 +247,13 @@ fn fidelity(args: &[String], verif: &Path, seed: u64) -> i32 {
     // the direct library call is what C19/C20 use as reference: make sure it is callable here too
     let _ = lib_call("", &scen_doc(), "+00:00", (0, 0), &Default::default(), crate::common::Mode::Clean, false);
     let _ = RunStats::new(false);
-    println!("fidelity OK: {} executions compared with the real binary {} ({} clock-reading variants skipped)", compared, bin.display(), skipped);
+    println!(
+        "fidelity OK: {} executions compared with the real binary {} ({} of them read the wall clock through the LD_PRELOAD shim; {} clock-reading variants skipped)",
+        compared,
+        bin.display(),
+        compared_clock,
+        skipped
+    );
     0
 }
 
@@ -248,6 +266,7 @@ fn scen_doc() -> crate::doc::Doc {
         nodes: vec![],
         final_newline: true,
         pad: None,
+        crlf: false,
     }
 }
 
